@@ -18,6 +18,7 @@
 -/
 import NV.Lemmas.Manager
 import NV.Gen.Manager
+import NV.Driver.EpEq
 namespace NV.C08
 open NV.Mgr
 
@@ -344,5 +345,21 @@ example :
       (∀ e ∈ offered env2, e.key ≠ 5) ∧ (testLocked repaired cfg r.1 env2).2.2 = true ∧
       (testLocked repaired cfg r.1 env2).1.active = some 1 := by
   refine ⟨_, rfl, rfl, by decide, rfl, rfl⟩
+
+
+/-! ### endpoint identity (`Equal` of resolver/endpoint doh.go / dns.go, tied by the `epeq` area) -/
+
+/-- `Equal` is identity of (kind, host name, path, bootstrap addresses) resp. (kind, address) -/
+theorem ep_equal_iff (a b : NV.EpSpec) : NV.epEqual a b = true ↔ a = b := by simp [NV.epEqual]
+
+/-- the primary and the secondary server of one provider — same host name and path, as many
+bootstrap addresses, other addresses — are DIFFERENT endpoints: an election that finds the healthy
+one installs it and fires OnChange (`onChange_iff`), it does not keep the dead one. -/
+theorem other_bootstrap_other_endpoint (h p : Bytes) (bs bs' : List Bytes) (hne : bs ≠ bs') :
+    NV.epEqual (.doh h p bs) (.doh h p bs') = false := by
+  simp [NV.epEqual, hne]
+
+example : NV.epEqual (.doh [1] [] [[10], [11]]) (.doh [1] [] [[10], [12]]) = false ∧
+    NV.epEqual (.doh [1] [] [[10]]) (.dns [10]) = false := by decide
 
 end NV.C08
